@@ -246,6 +246,69 @@ func storeGenFacts() {
 		storeLeanPairs(storeTypedConsts(ordFiles, ord, "order", "ChannelConfirmationConstraints"), true))
 	l.p("def nodeTiers : List (String × Nat) := %s", storeLeanPairs(storeTypedConsts(ordFiles, ord, "order", "NodeTier"), true))
 	l.p("def legacyLeaseDurationBucket : Nat := %s", intConst(ord, "order", "LegacyLeaseDurationBucket"))
+	// 4b. which of the four order-bucket keys each writer stores, and under which conditions: (callee, the
+	// conditions of the enclosing if-bodies; the `if err := f(); err != nil` wrapper of a call is not a guard)
+	l.p("/-- writer ↦ its `storeOrder…TX` calls in source order with the conditions guarding each call -/")
+	l.p("def orderKeyWrites : List (String × List (String × List String)) := [")
+	writers := []string{"storeBidTemplate", "SubmitOrder", "updateOrder", "copyOrder"}
+	for wi, fn := range writers {
+		fd := findFunc(files, fn)
+		if fd == nil {
+			fd = findFunc(files, "DB."+fn)
+		}
+		if fd == nil {
+			fail("clientdb.%s not found", fn)
+			continue
+		}
+		var items []string
+		var visit func(n ast.Node, guards []string)
+		visit = func(n ast.Node, guards []string) {
+			if n == nil {
+				return
+			}
+			switch x := n.(type) {
+			case *ast.IfStmt:
+				visit(x.Init, guards)
+				visit(x.Cond, guards)
+				g := exprString(x.Cond)
+				if x.Init != nil {
+					if as, ok := x.Init.(*ast.AssignStmt); ok && len(as.Rhs) == 1 {
+						g = exprString(as.Rhs[0]) + "; " + g
+					}
+				}
+				inner := append(append([]string{}, guards...), g)
+				visit(x.Body, inner)
+				if x.Else != nil {
+					visit(x.Else, append(append([]string{}, guards...), "!("+g+")"))
+				}
+				return
+			case *ast.CallExpr:
+				name := exprString(x.Fun)
+				if strings.HasPrefix(name, "storeOrder") {
+					items = append(items, fmt.Sprintf("(%q, %s)", name, leanStrList(guards)))
+				}
+			}
+			// generic descent over direct children
+			ast.Inspect(n, func(m ast.Node) bool {
+				if m == nil || m == n {
+					return true
+				}
+				visit(m, guards)
+				return false
+			})
+		}
+		visit(fd.Body, nil)
+		if len(items) == 0 {
+			fail("clientdb.%s: no storeOrder…TX calls", fn)
+		}
+		sep := ","
+		if wi == len(writers)-1 {
+			sep = ""
+		}
+		l.p("  (%q, [%s])%s", fn, strings.Join(items, ", "), sep)
+	}
+	l.p("]")
+
 	// 5. transaction discipline of the read methods: bbolt hands out slices into its memory map that are only
 	// valid inside the transaction, so every decode call of a *DB method has to sit inside a function literal
 	// (the View/Update closure or a callback invoked from it), never in the method body itself.
